@@ -72,7 +72,7 @@ theorem Good.add_kids {f : Forest} (hg : Good f) {A K : List HTree} {p : Nat} {v
   have hc : (handlesList (A ++ [HTree.node p v (K ++ ts)])).count a =
       (handlesList f.roots).count a + (handlesList ts).count a := by
     rw [hroots]
-    simp only [handlesList_append, handlesList, handles, List.count_append, List.count_cons,
+    simp only [handlesList_append_ff, handlesList, handles, List.count_append, List.count_cons,
       List.append_nil]
     omega
   show (handlesList (A ++ [HTree.node p v (K ++ ts)])).count a ≤ if a < n' then 1 else 0
